@@ -4,20 +4,31 @@ Generator: pattern recipes (depth <= 3) over literals, types, lists/sets/frozens
 alternatives, tuples, dicts with literal / type / Optional(+default) / Required / predicate /
 compound keys, Regex, predicates, And/Or/Not and M comparisons; targets in three families:
 derived from the pattern (conforming by construction), one-edit mutations of those (near
-misses), unrelated values.  Two constructed classes on top (each with distribution floors):
+misses), unrelated values.  Four constructed classes on top (each with distribution floors):
   * incomparable: an M comparison whose operands Python cannot order ('a' > 0, None >= 1, M(T['k']) > 0 on {'k': 'a'})
     as the whole pattern, as the first alternative of Or / of a list, as a dict key in front of a type key, under
     Not, inside And below a list of dicts, in a tuple; with and without Match(default=)
   * regex-crosstype: Regex built from a str / bytes pattern, given as text or PRE-COMPILED (re.compile), applied to
     the same text in the other string type; bare, inside Or / list alternatives / Not / And / a dict value, with and
     without Match(default=)
+  * raising-compare: an M comparison whose evaluation raises something that is NO TypeError - ordering a
+    Decimal('NaN') (decimal.InvalidOperation; a signalling NaN does so for == / != as well), a value class (Amount)
+    whose comparison methods raise ValueError / AttributeError / KeyError / ... for some operators, or return an object
+    without a truth value (bool() raises, like an array) - on the target side or as the right-hand side of the
+    comparison, in the same positions as the incomparable operands, also below M(T[...]); with and without default=
+  * literal-raises: a literal of the pattern ("everything else by ==") whose == with the target cannot be evaluated - a
+    signalling NaN Decimal beside a numeric literal, an Amount that refuses == / != (raises, or answers without a truth
+    value) beside any literal - as target / element / dict key, or as the literal written into the pattern; bare, first
+    alternative of Or / of a list, literal dict key in front of a type key, Not, And, tuple; with and without default=
 
-Oracle: refmatch() - the documented rules only.  A comparison that cannot be evaluated and a Regex applied to the
-other string type are "this alternative does not match" (MatchError; the next alternative / Not / default= react),
-exactly like a predicate that raises.
+Oracle: refmatch() - the documented rules only.  A comparison that cannot be evaluated (whatever Python raises while
+evaluating it or taking its truth value) and a Regex applied to the other string type are "this alternative does not
+match" (MatchError; the next alternative / Not / default= react), exactly like a predicate that raises.
 """
 import re
+import decimal
 import functools
+from decimal import Decimal
 
 from hypothesis import strategies as st
 
@@ -30,13 +41,21 @@ from .. import targets as tg
 PROPERTY = 'C09'
 RULE = ('patterns: recursive recipes (depth <= 3) over the documented Match constructs; targets: 40% derived from the '
         'pattern (conforming), 40% one-edit mutations of a conforming target, 20% unrelated. '
-        'Constructed on top (2 of 21 root draws each): an M comparison on operands Python cannot order (bare / first '
-        'alternative of Or or of a list / dict key / Not / And / tuple), and Regex from a str or bytes pattern, given as '
-        'text or compiled, on the other string type (bare / Or / list / Not / And / dict value); a third of them with default=. '
+        'Constructed on top (2 of 21 root draws each, the last 1 of 21): an M comparison on operands Python cannot order (bare / first '
+        'alternative of Or or of a list / dict key / Not / And / tuple), Regex from a str or bytes pattern, given as '
+        'text or compiled, on the other string type (bare / Or / list / Not / And / dict value), and an M comparison whose '
+        'evaluation raises something other than TypeError (Decimal NaN / sNaN, a value class whose comparison methods raise '
+        'one of 19 exception classes or return an object without a truth value; as target or as right-hand side; same '
+        'positions, also below M(T[..])), and a literal whose == with the target cannot be evaluated (signalling NaN, a '
+        'value class refusing == / !=; as target, element, dict key or as the literal itself); a third of them with default=. '
         'Non-trivial = pattern depth >= 2 or a dict pattern with >= 2 kinds of key. Distribution floors: '
         'accepted >= 20%, rejected >= 20%, near-miss >= 25%, incomparable comparison met by the reference >= 2.5% (accepted '
         'through another alternative / Not >= 1.5%, rejected >= 1.1%, with default= >= 0.8%), compiled cross-type Regex met '
-        '>= 1.1% (accepted >= 0.4%, rejected >= 0.5%, with default= >= 0.35%).')
+        '>= 1.1% (accepted >= 0.4%, rejected >= 0.5%, with default= >= 0.35%), comparison raising a non-TypeError met '
+        'by the reference >= 2.2% (accepted >= 1.5%, rejected >= 0.7%, with default= >= 0.6%; Decimal >= 0.65%, value '
+        'class >= 1.5%, result without truth value >= 0.45%, as right-hand side >= 0.45%), literal == that raises met '
+        '>= 1.2% (accepted >= 0.6%, rejected >= 0.5%, with default= >= 0.27%; without truth value >= 0.3%, signalling NaN '
+        '>= 0.42%, as the literal itself >= 0.28%).')
 ASSUMPTIONS = [
     'reference matcher refmatch() implements only the documented rules (types by isinstance, list/set element-wise '
     'against any alternative, tuples positionally, dict keys in spec order, == otherwise)',
@@ -44,15 +63,106 @@ ASSUMPTIONS = [
     'patterns with two Optional keys for the same key are not generated',
     'an M comparison that Python cannot evaluate (it raises) does not hold: the target does not conform to THIS '
     'alternative (MatchError), later alternatives / Not / default= react - the statement knows only "conforms" and '
-    '"otherwise MatchError", and M documents "If a comparison fails, MatchError is thrown"',
+    '"otherwise MatchError", and M documents "If a comparison fails, MatchError is thrown".  Which exception Python '
+    'raises (TypeError for unrelated builtin types, decimal.InvalidOperation for ordering a NaN, whatever a value class '
+    'raises from its comparison methods or from the truth value of their result) makes no difference to that',
+    '"everything else by ==": a literal whose == with the target cannot be evaluated (it raises, or bool() of its result '
+    'raises) is not equal to it - this alternative does not match, as for M comparisons; generated only for values whose '
+    '== and != refuse alike',
+    'results are compared with == except that the very same leaf object counts as equal to itself (a NaN is not == to itself)',
     'a Regex (pattern given as text or pre-compiled) applied to a str/bytes target of the other string type does not match',
-    'mismatch kind foreign-exception[-m-incomparable][-regex-crosstype]: glom raised something that is neither a '
+    'mismatch kind foreign-exception[-eq-no-truth][-eq-raises][-m-incomparable][-m-no-truth][-m-raises-other][-regex-crosstype]: glom raised something that is neither a '
     'MatchError nor a PathAccessError; the suffix names what the REFERENCE met while deciding (own buckets, so that one '
     'such defect cannot starve the report of another)',
 ]
 
 TYPES = {'int': int, 'str': str, 'float': float, 'bool': bool, 'object': object, 'NoneType': type(None),
          'list': list, 'dict': dict, 'tuple': tuple, 'bytes': bytes}
+
+
+class CompareError(Exception):
+    """an exception class of the application's own"""
+
+
+# what the comparison methods of an Amount raise (none of them is a TypeError)
+EXCS = {'ValueError': ValueError, 'AttributeError': AttributeError, 'KeyError': KeyError, 'IndexError': IndexError,
+        'LookupError': LookupError, 'ZeroDivisionError': ZeroDivisionError, 'OverflowError': OverflowError,
+        'ArithmeticError': ArithmeticError, 'InvalidOperation': decimal.InvalidOperation, 'RuntimeError': RuntimeError,
+        'NotImplementedError': NotImplementedError, 'RecursionError': RecursionError, 'AssertionError': AssertionError,
+        'UnicodeError': UnicodeError, 'OSError': OSError, 'EOFError': EOFError, 'StopIteration': StopIteration,
+        'BufferError': BufferError, 'CompareError': CompareError}
+assert not any(issubclass(c, TypeError) for c in EXCS.values())
+ALL_OPS = ['==', '!=', '>', '<', '>=', '<=']
+REFLECT = {'>': '<', '<': '>', '>=': '<=', '<=': '>=', '==': '==', '!=': '!='}
+PYOPS = {'==': lambda a, b: a == b, '!=': lambda a, b: a != b, '>': lambda a, b: a > b, '<': lambda a, b: a < b,
+         '>=': lambda a, b: a >= b, '<=': lambda a, b: a <= b}
+
+
+class NoTruth(object):
+    """what a comparison of an Amount in mode 'bool' returns: an object without a truth value (like an array)"""
+    __slots__ = ('excname',)
+
+    def __init__(self, excname):
+        self.excname = excname
+
+    def __bool__(self):
+        raise EXCS[self.excname]('no truth value')
+
+    def __repr__(self):
+        return 'NoTruth(%s)' % self.excname
+
+
+class Amount(object):
+    """a value class: compares by its number with numbers and other Amounts, except that the operators listed in
+    `failing` cannot be evaluated: they raise `excname` (mode 'raise') or return an object whose bool() raises it
+    (mode 'bool')"""
+    __slots__ = ('excname', 'failing', 'mode', 'v')
+
+    def __init__(self, excname, failing, mode, v):
+        self.excname, self.failing, self.mode, self.v = excname, tuple(failing), mode, v
+
+    def _cmp(self, op, other):
+        if op in self.failing:
+            if self.mode == 'bool':
+                return NoTruth(self.excname)
+            raise EXCS[self.excname]('Amount %s' % op)
+        o = other.v if type(other) is Amount else other
+        if isinstance(o, bool) or not isinstance(o, (int, float, Decimal)):
+            return NotImplemented
+        return PYOPS[op](self.v, o)
+
+    def __eq__(self, other):
+        return self._cmp('==', other)
+
+    def __ne__(self, other):
+        return self._cmp('!=', other)
+
+    def __gt__(self, other):
+        return self._cmp('>', other)
+
+    def __lt__(self, other):
+        return self._cmp('<', other)
+
+    def __ge__(self, other):
+        return self._cmp('>=', other)
+
+    def __le__(self, other):
+        return self._cmp('<=', other)
+
+    def __hash__(self):
+        return hash(self.v)
+
+    def __repr__(self):
+        return 'Amount(%s %s on %s, %r)' % (self.excname, 'from' if self.mode == 'raise' else 'from bool() of',
+                                            '/'.join(self.failing), self.v)
+
+
+XTYPES = {'Decimal': Decimal, 'Amount': Amount}
+SPECIAL_TAGS = ('dec', 'rc')      # ['dec', text] -> Decimal(text); ['rc', excname, failing ops, mode, v] -> Amount
+
+
+def typ_of(name):
+    return TYPES[name] if name in TYPES else XTYPES[name]
 
 
 class Pred(object):
@@ -97,11 +207,44 @@ LITS = [['i', 0], ['i', 1], ['i', 2], ['s', 'a'], ['s', 'b'], ['s', ''], ['none'
 HASHABLE_KEYS = ['a', 'b', 'c', 1]
 ORDER_OPS = ['>', '<', '>=', '<=']
 RE_MODES = ['str', 'cstr', 'bytes', 'cbytes']      # pattern given as text / re.compile(text) / bytes / re.compile(bytes)
-TAG_TYPE = {'s': 'str', 'i': 'int', 'f': 'float', 'none': 'NoneType', 'list': 'list', 'dict': 'dict', 'bytes': 'bytes'}
+TAG_TYPE = {'s': 'str', 'i': 'int', 'f': 'float', 'none': 'NoneType', 'list': 'list', 'dict': 'dict', 'bytes': 'bytes',
+            'b': 'bool', 'dec': 'Decimal', 'rc': 'Amount'}
+
+
+def _has_special(r):
+    if r[0] in SPECIAL_TAGS:
+        return True
+    if r[0] in ('list', 'tuple'):
+        return any(_has_special(x) for x in r[1])
+    if r[0] == 'dict':
+        return any(_has_special(v) or (isinstance(k, list) and k[0] in SPECIAL_TAGS) for k, v in r[1])
+    return False
+
+
+def tbuild(r):
+    """the object of a target / literal recipe: those of vf.targets plus Decimal and Amount leaves (also as dict keys)
+    in plain lists, tuples and dicts"""
+    tag = r[0]
+    if tag == 'dec':
+        return Decimal(r[1])
+    if tag == 'rc':
+        return Amount(r[1], r[2], r[3], r[4])
+    if not _has_special(r):
+        return tg.build(r).obj
+    if tag == 'list':
+        return [tbuild(x) for x in r[1]]
+    if tag == 'tuple':
+        return tuple(tbuild(x) for x in r[1])
+    if tag == 'dict':
+        out = {}
+        for k, v in r[1]:
+            out[tbuild(k) if isinstance(k, list) and k[0] in SPECIAL_TAGS else tg._key(k)] = tbuild(v)
+        return out
+    raise ValueError('bad target recipe %r' % (r,))
 
 
 def lit_val(l):
-    return tg.build(l).obj
+    return tbuild(l)
 
 
 # ---------------------------------------------------------------------------
@@ -345,17 +488,24 @@ def gen_incomparable(draw):
         else:
             bad = draw(st.sampled_from([['i', 1], ['none'], ['f', 1.5], ['i', 0], ['list', []]]))
         good = _m_sample(op, rhs)
-    btype, gtype = TAG_TYPE[bad[0]], TAG_TYPE[good[0]]
+    return _place(draw, shape, atom, bad, good)
+
+
+def _place(draw, shape, atom, bad, good, lit_alt=True):
+    """(pattern, target, shape): the comparison `atom`, which cannot be evaluated for the target `bad` (and holds for
+    `good`, if there is one), put where the documented reaction differs"""
+    btype = TAG_TYPE[bad[0]]
     if shape == 'bare':
         return atom, bad, shape
     if shape == 'or':
-        alt = draw(st.sampled_from([['type', btype], ['lit', bad], ['type', 'object']])) if bad[0] not in ('list', 'dict') \
-            else ['type', btype]
+        # (lit_alt: `bad` may also stand as a literal alternative - not for values that cannot be compared with ==)
+        alt = draw(st.sampled_from([['type', btype]] + ([['lit', bad]] if lit_alt else []) + [['type', 'object']])) \
+            if bad[0] not in ('list', 'dict') else ['type', btype]
         return ['or', [atom, alt]], bad, shape
     if shape == 'or-miss':
         return ['or', [atom, ['type', _other_type(btype)]]], bad, shape
     if shape == 'list':
-        items = [bad] + [draw(st.sampled_from([bad, good])) for _ in range(draw(st.sampled_from(range(3))))]
+        items = [bad] + [draw(st.sampled_from([bad, good] if good else [bad])) for _ in range(draw(st.sampled_from(range(3))))]
         if draw(st.booleans()):
             items.reverse()
         return ['list', [atom, ['type', btype]]], ['list', items], shape
@@ -363,13 +513,74 @@ def gen_incomparable(draw):
         return ['not', atom], bad, shape
     if shape == 'and-dict':
         # the pattern of the Match docstring: [{'id': And(M > 0, int), ...}] with a near-miss item
-        p = ['list', [['dict', [[['lit', 'a'], ['and', [atom, ['type', gtype]]]], [['type', 'str'], ['type', 'object']]]]]]
+        p = ['list', [['dict', [[['lit', 'a'], ['and', [atom, ['type', TAG_TYPE[good[0]]]]]], [['type', 'str'], ['type', 'object']]]]]]
         rows = [['dict', [['a', bad]]]]
         if draw(st.booleans()):
             rows.insert(0, ['dict', [['a', good], ['zz', ['none']]]])
         return p, ['list', rows], shape
     assert shape == 'tuple', shape
     return ['tuple', [atom, ['type', 'str']]], ['tuple', [bad, ['s', 's']]], shape
+
+
+def _holds_for(op, n):
+    """an int for which `it <op> n` holds"""
+    return {'==': n, '!=': n + 1, '>': n + 1, '<': n - 1, '>=': n, '<=': n}[op]
+
+
+RC_LHS_SHAPES = ['bare', 'or', 'or', 'or-miss', 'list', 'list', 'dict-key', 'dict-key', 'dict-key-req', 'not', 'and-dict', 'tuple']
+RC_RHS_SHAPES = ['bare', 'or', 'or', 'or-miss', 'list', 'not', 'tuple']
+
+
+def gen_raising_compare(draw):
+    """an M comparison whose evaluation raises something that is NOT a TypeError: the operand is a Decimal NaN (ordering
+    signals decimal.InvalidOperation; a signalling NaN does so for == and != too) or an Amount whose comparison methods
+    raise one of EXCS for some operators (or return an object whose bool() raises it).  The operand is the target (or
+    what M(T[..]) reaches in it, or a key of it), or the right-hand side written into the pattern.  Same positions as
+    gen_incomparable.  Returns (pattern, target, shape, kind, side)"""
+    kind = draw(st.sampled_from(['dec', 'dec', 'amount', 'amount', 'amount', 'amount-bool']))
+    side = draw(st.sampled_from(['lhs', 'lhs', 'lhs', 'lhs', 'rhs']))
+    shape = draw(st.sampled_from(RC_LHS_SHAPES if side == 'lhs' else RC_RHS_SHAPES))
+    as_key = shape.startswith('dict-key')
+    op = draw(st.sampled_from(ORDER_OPS if as_key else ORDER_OPS + ORDER_OPS + ['==', '!=']))
+    n = draw(st.sampled_from(range(3)))
+    hv = _holds_for(op, n)
+    # the operator that is evaluated on the special operand (the reflected one when it stands on the right)
+    mine = op if side == 'lhs' else REFLECT[op]
+    if kind == 'dec':
+        # (a signalling NaN cannot be hashed: no dict key)
+        nan = 'sNaN' if op in ('==', '!=') else draw(st.sampled_from(['NaN', 'NaN', '-NaN'] + ([] if as_key else ['sNaN'])))
+        special, good = ['dec', nan], ['dec', str(hv)]
+    else:
+        exc = draw(st.sampled_from(sorted(EXCS)))
+        # (keys must stay comparable with == : the dict that carries them needs it)
+        more = draw(st.lists(st.sampled_from(ORDER_OPS if as_key else ALL_OPS), max_size=2))
+        failing = [o for o in ALL_OPS if o == mine or o in more]
+        mode = 'bool' if kind == 'amount-bool' else 'raise'
+        # the number of the failing operand: one for which the comparison would hold, or one for which it would not
+        special = ['rc', exc, failing, mode, hv + draw(st.sampled_from([7, -7]))]
+        good = ['rc', exc, [o for o in failing if o != op], mode, hv]
+    if side == 'rhs':
+        # M <op> special on a plain number: nothing conforms to the comparison itself
+        bad = draw(st.sampled_from([['i', 0], ['i', 1], ['i', 5], ['dec', '1'], ['dec', '-2']]))
+        p, t, shape = _place(draw, shape, ['m', op, special], bad, None, lit_alt=True)
+        return p, t, shape, kind, side
+    if as_key:
+        wild = TAG_TYPE[special[0]] if draw(st.booleans()) else 'object'
+        atom_key = ['km', op, ['i', n]]
+        entries = [[['req', atom_key] if shape == 'dict-key-req' else atom_key, ['type', 'int']], [['type', wild], ['type', 'int']]]
+        items = [[special, ['i', 1]]]
+        if draw(st.booleans()):
+            items.insert(draw(st.sampled_from([0, 1])), [good, ['i', 2]])      # a key for which the comparison holds
+        return ['dict', entries], ['dict', items], shape, kind, side
+    if draw(st.sampled_from(range(4))) == 0:
+        # below M(T[...]): the element reached is the operand
+        seg = draw(st.sampled_from(['k', 0]))
+        atom = ['mt', seg, op, ['i', n]]
+        bad, good = (['dict', [['k', special]]], ['dict', [['k', good]]]) if seg == 'k' else (['list', [special]], ['list', [good]])
+    else:
+        atom, bad = ['m', op, draw(st.sampled_from([['i', n], ['i', n], ['dec', str(n)]]))], special
+    p, t, shape = _place(draw, shape, atom, bad, good, lit_alt=False)
+    return p, t, shape, kind, side
 
 
 def gen_regex_crosstype(draw):
@@ -401,8 +612,62 @@ def gen_regex_crosstype(draw):
         ['dict', [['a', bad]] + ([['zz', good]] if draw(st.booleans()) else [])], shape
 
 
+LR_LHS_SHAPES = ['bare', 'or', 'or', 'or-miss', 'list', 'list', 'dict-key', 'dict-key', 'not', 'and-dict', 'tuple']
+
+
+def gen_literal_raises(draw):
+    """a literal in the pattern ("everything else by ==") whose == / != with the target cannot be evaluated: the target
+    (an element, a key of it) is a signalling NaN Decimal beside a numeric literal, or an Amount that refuses == and !=
+    (raises one of EXCS, or answers with an object whose bool() raises it); or the literal written into the pattern is
+    such a value and the target a plain number.  Same positions as gen_incomparable.
+    Returns (pattern, target, shape, kind, side)"""
+    kind = draw(st.sampled_from(['dec', 'dec', 'amount', 'amount', 'amount-bool']))
+    side = draw(st.sampled_from(['lhs', 'lhs', 'lhs', 'rhs']))
+    shape = draw(st.sampled_from(LR_LHS_SHAPES if side == 'lhs' else RC_RHS_SHAPES))
+    as_key = shape == 'dict-key'
+    if as_key and kind == 'dec':
+        kind = 'amount'                     # (a signalling NaN cannot be hashed: no dict key)
+    if kind == 'dec':
+        special = ['dec', draw(st.sampled_from(['sNaN', 'sNaN', '-sNaN', 'sNaN7']))]
+    else:
+        more = draw(st.lists(st.sampled_from(ORDER_OPS), max_size=2))
+        # (the number is far from every literal: a dict that carries an Amount as key never has to compare it)
+        special = ['rc', draw(st.sampled_from(sorted(EXCS))), [o for o in ALL_OPS if o in ('==', '!=') or o in more],
+                   'bool' if kind == 'amount-bool' else 'raise', draw(st.sampled_from([50, 51, -50]))]
+    if side == 'rhs':
+        # the literal of the pattern is the value that refuses the comparison; nothing is equal to it
+        bad = draw(st.sampled_from([['i', 0], ['i', 1], ['f', 1.5], ['dec', '1'], ['dec', '-2']]))
+        p, t, shape = _place(draw, shape, ['lit', special], bad, None, lit_alt=True)
+        return p, t, shape, kind, side
+    if kind == 'dec':
+        # (a Decimal answers == with a str / None / tuple by "not equal" without looking at its own value)
+        lit = draw(st.sampled_from([['i', 0], ['i', 1], ['i', 2], ['f', 1.5], ['b', True], ['dec', '1']]))
+        good = draw(st.sampled_from([lit, lit if lit[0] == 'dec' else ['dec', str(lit[1]) if lit[0] != 'b' else '1']]))
+    else:
+        lit = draw(st.sampled_from(LITS[:9] + [['dec', '1']]))
+        good = lit
+    if as_key:
+        lit = draw(st.sampled_from([['i', 1], ['s', 'a'], ['i', 0]]))
+        wild = 'Amount' if draw(st.booleans()) else 'object'
+        entries = [[['lit', lit[1]], ['type', 'int']], [['type', wild], ['type', 'int']]]
+        items = [[special, ['i', 1]]]
+        if draw(st.sampled_from(range(3))):
+            items.insert(draw(st.sampled_from([0, 1])), [lit[1], ['i', 2]])      # the key the literal is equal to (required)
+        return ['dict', entries], ['dict', items], shape, kind, side
+    p, t, shape = _place(draw, shape, ['lit', lit], special, good, lit_alt=False)
+    return p, t, shape, kind, side
+
+
 def gen(draw):
     special = draw(st.sampled_from(range(21)))
+    if special == 18:
+        p, t, shape, kind, side = gen_literal_raises(draw)
+        return {'pattern': p, 'target': t, 'family': 'near-miss', 'default': draw(st.sampled_from([False, False, True])),
+                'cls': 'literal-raises:' + shape, 'lr': [kind, side]}
+    if special in (19, 20):
+        p, t, shape, kind, side = gen_raising_compare(draw)
+        return {'pattern': p, 'target': t, 'family': 'near-miss', 'default': draw(st.sampled_from([False, False, True])),
+                'cls': 'raising-compare:' + shape, 'rc': [kind, side]}
     if special in (2, 3, 4, 5):
         if special >= 4:
             name = 'regex-crosstype'
@@ -458,7 +723,7 @@ def build_key(k):
     if tag == 'req':
         return Required(build_key(k[1]))
     if tag == 'type':
-        return TYPES[k[1]]
+        return typ_of(k[1])
     if tag == 'pred':
         return PREDS[k[1]]
     if tag == 'kt':
@@ -482,7 +747,7 @@ def build_pat(p):
     if tag == 'lit':
         return lit_val(p[1])
     if tag == 'type':
-        return TYPES[p[1]]
+        return typ_of(p[1])
     if tag == 'pred':
         return PREDS[p[1]]
     if tag == 'regex':
@@ -507,7 +772,8 @@ def build_pat(p):
     if tag == 'mt':
         v = p[3][1]
         lhs = M(T[p[1]])
-        return {'==': lhs == v, '!=': lhs != v, '>': lhs > v}[p[2]]
+        return {'==': lambda: lhs == v, '!=': lambda: lhs != v, '>': lambda: lhs > v, '<': lambda: lhs < v,
+                '>=': lambda: lhs >= v, '<=': lambda: lhs <= v}[p[2]]()
     if tag == 'dict':
         out = {}
         for k, v in p[1]:
@@ -526,16 +792,40 @@ class Mis(Exception):
 
 
 def ref_compare(lhs, op, rhs, ev):
-    """`lhs <op> rhs` as Python decides it.  A comparison Python cannot evaluate (it raises: 'a' > 0) does not hold -
-    the target does not conform to this alternative, like with a predicate that raises (recorded in ev)"""
+    """`lhs <op> rhs` as Python decides it.  A comparison Python cannot evaluate (it raises: 'a' > 0, Decimal('NaN') > 0,
+    a value class that refuses; or its result has no truth value) does not hold - the target does not conform to this
+    alternative, like with a predicate that raises (recorded in ev: 'm-incomparable' for Python's TypeError,
+    'm-raises-other' for anything else the comparison raises, 'm-no-truth' when bool() of its result raises)"""
     try:
-        ok = {'==': lambda: lhs == rhs, '!=': lambda: lhs != rhs, '>': lambda: lhs > rhs, '<': lambda: lhs < rhs,
-              '>=': lambda: lhs >= rhs, '<=': lambda: lhs <= rhs}[op]()
-    except Exception:
+        res = PYOPS[op](lhs, rhs)
+    except TypeError:
         ev.add('m-incomparable')
         raise Mis('m-raises')
+    except Exception:
+        ev.add('m-raises-other')
+        raise Mis('m-raises')
+    try:
+        ok = bool(res)
+    except Exception:
+        ev.add('m-no-truth')
+        raise Mis('m-no-truth')
     if not ok:
         raise Mis('m')
+
+
+def ref_equal(a, b, ev):
+    """`a == b` as Python decides it ("everything else by =="); an == that cannot be evaluated does not hold (recorded in
+    ev: 'eq-raises' when the comparison raises, 'eq-no-truth' when bool() of its result does)"""
+    try:
+        res = a == b
+    except Exception:
+        ev.add('eq-raises')
+        return False
+    try:
+        return bool(res)
+    except Exception:
+        ev.add('eq-no-truth')
+        return False
 
 
 def key_is_equality(k):
@@ -554,17 +844,17 @@ def ref_key(key, k, ev):
         ref_compare(key, k[1], lit_val(k[2]), ev)
         return key
     if tag in ('lit', 'opt', 'optd'):
-        if key != k[1]:
+        if not ref_equal(key, k[1], ev):
             raise Mis('key-eq')
         return key
     if tag == 'optkt':
-        if key != tuple(k[1]):
+        if not ref_equal(key, tuple(k[1]), ev):
             raise Mis('key-eq')
         return key
     if tag == 'req':
         return ref_key(key, k[1], ev)
     if tag == 'type':
-        if not isinstance(key, TYPES[k[1]]):
+        if not isinstance(key, typ_of(k[1])):
             raise Mis('key-type', True)
         return key
     if tag == 'pred':
@@ -589,10 +879,11 @@ def ref_key(key, k, ev):
 
 def refmatch(t, p, ev):
     """the value Match(p) returns for t, or Mis.  ev (a set) collects what the reference met on the way:
-    'm-incomparable', 'regex-crosstype', 'regex-crosstype-compiled'"""
+    'm-incomparable', 'm-raises-other', 'm-no-truth', 'eq-raises', 'eq-no-truth', 'regex-crosstype',
+    'regex-crosstype-compiled'"""
     tag = p[0]
     if tag == 'type':
-        if not isinstance(t, TYPES[p[1]]):
+        if not isinstance(t, typ_of(p[1])):
             raise Mis('type', True)
         return t
     if tag == 'dict':
@@ -696,7 +987,7 @@ def refmatch(t, p, ev):
         ref_compare(sub, p[2], p[3][1], ev)
         return t
     if tag == 'lit':
-        if t != lit_val(p[1]):
+        if not ref_equal(t, lit_val(p[1]), ev):
             raise Mis('eq')
         return t
     raise ValueError(p)
@@ -725,7 +1016,12 @@ def deep_equal(a, b):
         return len(a) == len(b) and all(deep_equal(x, y) for x, y in zip(a, b))
     if isinstance(a, (set, frozenset)):
         return sorted(map(_hkey, a)) == sorted(map(_hkey, b))
-    return a == b
+    if a is b:
+        return True          # (the very leaf object: a NaN is not == to itself, == on a signalling NaN raises)
+    try:
+        return bool(a == b)
+    except Exception:
+        return False
 
 
 def _containers(v, acc=None):
@@ -761,12 +1057,16 @@ def _exp_text(exp):
 def check(recipe, ctx):
     p = recipe['pattern']
     pat = build_pat(p)
-    target = tg.build(recipe['target']).obj
+    target = tbuild(recipe['target'])
     snap = tg.snapshot(target)
     struct = tg.structure(target)
     ctx.label('family-' + recipe['family'])
     if recipe.get('cls'):
         ctx.label('cls-' + recipe['cls'].split(':')[0], 'cls-' + recipe['cls'])
+    if recipe.get('rc'):
+        ctx.label('rc-kind-' + recipe['rc'][0], 'rc-side-' + recipe['rc'][1])
+    if recipe.get('lr'):
+        ctx.label('lr-kind-' + recipe['lr'][0], 'lr-side-' + recipe['lr'][1])
     ev = set()
     try:
         exp = ('ok', refmatch(target, p, ev))
@@ -778,7 +1078,8 @@ def check(recipe, ctx):
         if recipe['default']:
             ctx.label(e_ + '+default')
     # a bucket of its own for exceptions that are no rejection at all, named after what the reference met
-    foreign_kind = 'foreign-exception' + ''.join('-' + e_ for e_ in sorted(ev & {'m-incomparable', 'regex-crosstype'}))
+    foreign_kind = 'foreign-exception' + ''.join('-' + e_ for e_ in sorted(ev & {'m-incomparable', 'm-raises-other', 'm-no-truth', 'eq-raises', 'eq-no-truth',
+                                                                         'regex-crosstype'}))
     if "'mt'" in repr(p):
         ctx.label('has-M(T)')
     keykinds = set(k[0] for k, _ in p[1]) if p[0] == 'dict' else set()
@@ -891,5 +1192,12 @@ SUBS = [
                 'm-incomparable+default': 0.008,
                 'regex-crosstype-compiled': 0.011, 'regex-crosstype-compiled+ok': 0.004,
                 'regex-crosstype-compiled+mis': 0.005, 'regex-crosstype-compiled+default': 0.0035,
-                'cls-incomparable': 0.022, 'cls-regex-crosstype': 0.012}),
+                'cls-incomparable': 0.022, 'cls-regex-crosstype': 0.012,
+                # an M comparison that raises something other than TypeError / whose result has no truth value
+                'cls-raising-compare': 0.028, 'm-raises-other': 0.022, 'm-raises-other+ok': 0.015,
+                'm-raises-other+mis': 0.007, 'm-raises-other+default': 0.006, 'm-no-truth': 0.0045,
+                'rc-kind-dec': 0.0065, 'rc-kind-amount': 0.015, 'rc-side-rhs': 0.0045,
+                # a literal whose == with the target cannot be evaluated
+                'cls-literal-raises': 0.015, 'eq-raises': 0.012, 'eq-raises+ok': 0.006, 'eq-raises+mis': 0.005,
+                'eq-raises+default': 0.0027, 'eq-no-truth': 0.003, 'lr-kind-dec': 0.0042, 'lr-side-rhs': 0.0028}),
 ]
